@@ -191,6 +191,9 @@ def run_fit(cfg, tape, acc, bern="script", st=None, shared=None):
         if not (ch["k"] == k and seen[t]["k"] == k and tuple(ch["start"].shape) == tuple(neg.shape) and torch.equal(ch["start"], neg)):
             out.append(("cd:chain-not-k-steps-from-the-negative-batch", dict(step=t, k_used=ch["k"], k=k)))
             break
+        if k == 0 and not torch.equal(ch["end"], ch["start"]):
+            out.append(("cd:zero-step-chain-moved-away-from-the-negative-batch", dict(step=t)))
+            break
         if any(g is None for net in grads for g in net.values()):
             out.append(("cd:parameter-without-gradient", dict(step=t)))
             break
